@@ -51,8 +51,9 @@ class JobList:
 
 
 class GatherR:
-    def __init__(self, arr):
+    def __init__(self, arr, return_exceptions=False):
         self.arr = arr
+        self.return_exceptions = return_exceptions
 
 
 class WaitR:
@@ -207,7 +208,7 @@ class RunModel:
 
     def await_value(self, it, v, e, env):
         if isinstance(v, GatherR):
-            it.p.ghost["gathers"] = it.p.ghost["gathers"] + [(v.arr, it.p.ghost["created"])]
+            it.p.ghost["gathers"] = it.p.ghost["gathers"] + [(v.arr, it.p.ghost["created"], v.return_exceptions)]
             return Opaque("gather result")
         if isinstance(v, WaitR):
             it.p.ghost["waits"] = it.p.ghost.get("waits", []) + [v.arr]
@@ -232,10 +233,12 @@ class RunModel:
         if dotted == "time.perf_counter":
             return self.s.builtins["perf_counter"]
         if dotted == "asyncio":
-            def gather(it, node, *a, _star=None):
+            def gather(it, node, *a, _star=None, return_exceptions=False):
                 if a or not isinstance(_star, JobList):
                     raise Unsupported("gather(...) of something other than one task list")
-                return GatherR(_star.arr)
+                if not isinstance(return_exceptions, bool):
+                    raise Unsupported("gather(return_exceptions=<symbolic>)")
+                return GatherR(_star.arr, return_exceptions)
 
             def wait(it, node, lst, **kw):
                 # asyncio.wait completes without raising what the tasks raised: not a gather
@@ -254,7 +257,7 @@ def configure(sess):
 class Run(Contract):
     target = "mosaik.scheduler.run"
     configure = "configure"
-    property_ids = ["C17", "C05", "C14"]
+    property_ids = ["C17", "C05", "C14", "C09", "C13"]
     variants = [{"rt": False}, {"rt": True}]
 
     def make_args(self, mk, rt=False):
@@ -343,7 +346,11 @@ class Run(Contract):
             # (errors of the awaited jobs reach the caller through gather only)
             out["setup_and_processes_each_awaited_by_one_gather"] = False
             return out
-        (l0, c0), (l1, c1) = gs
+        (l0, c0, keep0), (l1, c1, keep1) = gs
+        # C09 / C13 / C14: the first failure (SimulationError of the loop guard, an invalid reply, a lost connection) ends run()
+        # at once -- gather must pass it on immediately, not collect it until every other process has finished (the others
+        # may be waiting for the failed one for ever)
+        out["first_failure_ends_run_at_once"] = not keep0 and not keep1
         out["every_simulator_is_sent_setup_done_once_and_all_are_awaited_first"] = And(
             z3.ForAll([j], l0[j] == z3.If(J.is_setup(j), 1, 0)), z3.ForAll([j], c0[j] == l0[j]))
         out["one_process_per_simulator_with_the_adjusted_arguments_all_awaited"] = And(
@@ -367,6 +374,7 @@ class Run(Contract):
         yield {"real_time_run_with": 2}
         yield {"rt_factor_arg": None, "time_resolution_arg": 1.0, "nsims": 3, "setup_fails": 1}
         yield {"rt_factor_arg": None, "time_resolution_arg": 1.0, "nsims": 3, "process_fails": 1}
+        yield {"rt_factor_arg": None, "time_resolution_arg": 1.0, "nsims": 3, "process_fails": 1, "others_wait_forever": True}
 
     def native_call(self, m):
         if "real_time_run_with" in m:
@@ -391,6 +399,8 @@ class Run(Contract):
                 await asyncio.sleep(0)
             if m.get("process_fails") == int(sim.sid[2:]):
                 raise ConnectionResetError(sim.sid)
+            if m.get("others_wait_forever"):
+                await asyncio.Future()        # waits for the failed simulator: never done
             done.append(sim.sid)
         try:
             for i in range(n):
@@ -406,10 +416,15 @@ class Run(Contract):
                 w.sims[s.sid] = s
             scheduler.sim_process = fake
             try:
-                w.loop.run_until_complete(scheduler.run(w, 7, rt, True, False))
+                w.loop.run_until_complete(asyncio.wait_for(scheduler.run(w, 7, rt, True, False), 3))
                 err = None
             except (ValueError, ConnectionResetError) as e:
                 err = e
+            except asyncio.TimeoutError:
+                for t in asyncio.all_tasks(w.loop):
+                    t.cancel()
+                return False, (f"run() with {n} simulators where the process of S-1 fails while the others wait for it: still not "
+                               f"returned after 3 s (events {order})")
             if "setup_fails" in m or "process_fails" in m:
                 ok = isinstance(err, ConnectionResetError) and ("setup_fails" not in m or "proc" not in order)
                 for t in asyncio.all_tasks(w.loop):
